@@ -114,6 +114,26 @@ P = {
   ref='6/C20'),
 }
 
+# clauses added after the fifth round of seeded changes / refactorings
+ROUND5 = {
+ 'C01': 'Also: library code on the parse path calls no state-changing method of the shared ply parser other than parse() (the list is derived from ply/yacc.py on every run), and no function handed out of the call that built it reads a one-shot iterator of that call.',
+ 'C04': 'Also: the function behind the list expression, applied abstractly to elements that are themselves iterators, returns exactly those elements.',
+ 'C05': 'Also: PythonType.check, evaluated abstractly over class membership x exact-class x validator answers, accepts iff instance and all validators; when the chosen overload raises an argument error while it runs, that error is the outcome and no other overload is run.',
+ 'C06': 'Also: the layer walk hands every layer the name, filter and use_convention flag it was given (each member of a merged layer spells the name in its own convention); a failing chosen overload is not replaced by another match of the layer.',
+ 'C07': 'Also: build_yaqlization_settings, evaluated abstractly on a remapping with both forms of target, blacklists every target name.',
+ 'C09': 'Also: the expression nodes, the dispatcher and the host interface write only into a child context they created on every path reaching the write; augmented assignments are applied only to names holding values made in the call or parameters declared scalar.',
+ 'C11': 'Also: applications of a lambda inside a filter / map the loop reads from count towards the once-per-element bound; the mapping handed to the sweep is keyed by the keyword the caller wrote (parameters whose python name differs from their alias are modelled).',
+ 'C12': 'Also: situations with hidden parameters after the visible ones.',
+ 'C14': 'Also: the iterator wrappers of memorize / limit_iterable advance their source by one next() per request; a lambda is applied at most once per element on every path through a loop over the source.',
+ 'C16': 'Also: the value of a single- or double-quoted literal is decode_escapes(text between the quotes) wherever it is set.',
+ 'C17': 'Also: register_function removes or replaces nothing registered before; the layer walk and the parent chains of multi- and linked contexts are decided by abstract evaluation on small chains (64 + 14 + 9 scenarios), including linked chains that share ancestors with the host chain.',
+ 'C18': 'Also: no function handed out of the call that built it reads a one-shot iterator of that call.',
+ 'C19': 'Also: _publish_match, evaluated abstractly on a match with an unset group, publishes value / start / end exactly as re.Match reports them; every function with a trim set hands it unchanged to str.strip / lstrip / rstrip.',
+ 'C20': 'Also: the value handed to fromtimestamp is the timestamp parameter itself, not something computed from it.',
+}
+for _k, _v in ROUND5.items():
+    P[_k]['text'] += ' ' + _v
+
 NA = {
 }
 
